@@ -475,6 +475,24 @@ theorem merge_per_chromosome (d n : Nat) (ivs : List Iv) (hs : ivs.Pairwise (fun
 
 example : [({ c := 0, s := 3, e := 5 } : Iv), { c := 1, s := 0, e := 2 }].Pairwise (fun a b => a.c ≤ b.c) := by decide
 
+/-- **C10.merge_checked** — the in-memory merge entry points with their restored validation: entries sorted in
+genome order that all lie inside their chromosomes give exactly the per-chromosome single-contig merge; if some
+entry does not lie inside its chromosome an error is raised (nothing is merged silently). -/
+theorem merge_checked (d : Nat) (sizes : List Nat) (ivs : List Iv) (hs : ivs.Pairwise (fun a b => a.c ≤ b.c)) :
+    ((∀ iv ∈ ivs, iv.valid sizes = true) → mergeChecked d sizes ivs = specMerge d sizes.length ivs) ∧
+    ((∃ iv ∈ ivs, iv.valid sizes = false) → mergeChecked d sizes ivs = none) := by
+  constructor
+  · intro hv
+    have hall : ivs.all (fun iv => iv.valid sizes) = true := List.all_eq_true.mpr hv
+    simp only [mergeChecked, hall, if_true]
+    exact merge_per_chromosome d sizes.length ivs hs (fun iv h => ((valid_iff sizes iv).mp (hv iv h)).1)
+  · intro ⟨iv, hm, hf⟩
+    have : ivs.all (fun iv => iv.valid sizes) = false := by
+      cases h : ivs.all (fun iv => iv.valid sizes) with
+      | false => rfl
+      | true => have := List.all_eq_true.mp h iv hm; rw [hf] at this; cases this
+    simp [mergeChecked, this]
+
 /-! ### values under intervals -/
 
 theorem offset_lengths_cons {α} (a : List α) (as : List (List α)) (c : Nat) (hc : c ≤ as.length) :
